@@ -157,12 +157,17 @@ def find_stmt(funcdef, pred, what):
 def make_function(name, params, body, modname, qualname, note):
     """Fragment extraction (rule 5): body statements are the repository's, verbatim (deep-copied AST)."""
     body = [copy.deepcopy(b) for b in body]
+    for b in body[1:]:           # synthetic trailing statements (e.g. a `return`) take the location of the lifted statement
+        if getattr(b, "lineno", 0) < body[0].lineno:
+            for n in ast.walk(b):
+                if hasattr(n, "lineno"):
+                    n.lineno = n.end_lineno = getattr(body[0], "end_lineno", body[0].lineno)
     REWRITE_LOG.append(("fragment-extraction", modname, qualname, body[0].lineno, note))
     fn = ast.FunctionDef(
         name=name,
         args=ast.arguments(posonlyargs=[], args=[ast.arg(p) for p in params], kwonlyargs=[], kw_defaults=[], defaults=[]),
         body=body, decorator_list=[], lineno=body[0].lineno, col_offset=0,
-        end_lineno=getattr(body[-1], "end_lineno", body[-1].lineno), end_col_offset=0)
+        end_lineno=max(getattr(b, "end_lineno", b.lineno) for b in body), end_col_offset=0)
     return fn
 
 
